@@ -26,6 +26,25 @@ add("C12", "model_checking",
     "flag <=> connected, tree over visited cells, count bounds, corridor rule) and every endpoint draw on every distinct (maze, meta) is executed.",
     "Bounded grids; the documented ValueError/AssertionError for <2-cell components and 1xN grids is accepted.", "5/C12")
 
+add("C19", "model_checking",
+    "explicit-state BFS over the program states of the real gen_wilson (complete Markov chain) + exact absorption probabilities",
+    "The complete reachable state graph of gen_wilson on 1x2..3x3 (thorough: 2x4, 4x2, 3x4 under a cap) is built from real executions under the "
+    "choice oracle; the terminal set must equal the brute-force set of spanning trees and every tree's exact absorption probability must be 1/N "
+    "(1e-9), with residual mass < 1e-12. Weighted draws (choice(p=...)) are modelled with their weights.",
+    "Decides uniformity of the algorithm given uniform NumPy primitives, not PRNG quality for every seed; bounded grids.", "5/C19")
+add("C09", "exploration",
+    "bounded-exhaustive enumeration of all ordered maze pairs of a variant family and of the endpoint coordinate box",
+    "All ordered pairs (same object / equal copy / every other member) over a family of mazes of all three kinds and several shapes with one-bit, "
+    "one-endpoint, one-solution-cell and metadata variants are compared with ==, != and hash against a fingerprint model; sets/dicts and dataset "
+    "equality likewise; every start/end in the -2..size+1 box through five constructors.",
+    "Family-based (not all mazes); shapes <= 3x3.", "5/C09")
+add("C02", "exploration",
+    "bounded-exhaustive enumeration of all connection structures x all ordered cell pairs against a reference BFS",
+    "Every graph on every grid up to 3x3 (thorough: up to 3x4/4x3, 131072 graphs each) x every ordered (start,end) pair is solved by the real A* "
+    "and compared with reference BFS distances: endpoints, adjacency along connections, exact minimal length, ValueError iff disconnected, "
+    "one-cell path for start==end; also through SolvedMaze.from_targeted_lattice_maze and on structured mazes up to 20x20.",
+    "Small-scope: larger grids only via structured families.", "5/C02")
+
 PLANNED = {}
 
 
